@@ -75,6 +75,7 @@ def plan(tier, seed, build, scale):
         a += per
     units.append({"mode": "dedup", "cases": [0, 1]})
     units.append({"mode": "refusals", "cases": [0, 1]})
+    units.append({"mode": "pairs", "cases": [0, 1]})
     return units
 
 
@@ -431,6 +432,96 @@ def run_refusals(res, inc, progress):
     return res
 
 
+def run_pairs(res, inc, progress):
+    """Functions and methods declared with a synchronous twin (@asynq(sync_fn=...)) - plain, instance method, class- and
+    staticmethod, reached through class and instance: awaiting X.asyncio(args), alone or yielded by another function
+    run through .asyncio(), gives what the generator body gives under the scheduler (X.asynq(args).value())."""
+    import asynq
+    from asynq import asynq as A, is_asyncio_mode
+
+    @A()
+    def leaf(x):
+        return x + 100
+
+    def _f_sync(x):
+        return ("sync twin", x)
+
+    @A(sync_fn=_f_sync)
+    def f(x):
+        v = yield leaf.asynq(x)
+        return ("body", v)
+
+    class K(object):
+        def _m_sync(self, x):
+            return ("sync twin", x)
+
+        @A(sync_fn=_m_sync)
+        def m(self, x):
+            v = yield leaf.asynq(x)
+            return ("body", v)
+
+        @classmethod
+        def _c_sync(cls, x):
+            return ("sync twin", x)
+
+        @A(sync_fn=_c_sync)
+        @classmethod
+        def cm(cls, x):
+            v = yield leaf.asynq(x)
+            return ("body", v)
+
+        @staticmethod
+        def _s_sync(x):
+            return ("sync twin", x)
+
+        @A(sync_fn=_s_sync)
+        @staticmethod
+        def sm(x):
+            v = yield leaf.asynq(x)
+            return ("body", v)
+
+    k = K()
+    targets = [("function", lambda: f), ("method via instance", lambda: k.m), ("classmethod via class", lambda: K.cm), ("classmethod via instance", lambda: k.cm), ("staticmethod via class", lambda: K.sm), ("staticmethod via instance", lambda: k.sm)]
+
+    def outcome(thunk):
+        try:
+            return ("val", thunk())
+        except BaseException as e:
+            return ("exc", type(e).__name__, str(e)[:120])
+
+    n = 0
+    for rounds in (1, 2):  # (a second round: whatever the first one cached on the class must still be right)
+        for name, get in targets:
+            for shape in ("alone", "yielded", "yielded in a list"):
+                progress(n)
+                n += 1
+                want = outcome(lambda: get().asynq(2).value())
+
+                @A()
+                def caller():
+                    if shape == "yielded":
+                        return (yield get().asynq(2))
+                    return (yield [get().asynq(2), leaf.asynq(0)])[0]
+
+                if shape == "alone":
+                    got = outcome(lambda: asyncio.run(get().asyncio(2)))
+                else:
+                    got = outcome(lambda: asyncio.run(caller.asyncio()))
+                res["evaluations"] += 1
+                inc("functions_with_a_synchronous_twin_awaited_under_asyncio")
+                if (got != want or want != ("val", ("body", 102)) or is_asyncio_mode()) and len(res["violations"]) < 6:
+                    res["violations"].append(
+                        {
+                            "oracle": "asyncio-outcome-differs",
+                            "mechanism": "asyncio-outcome-differs/sync_fn-pair",
+                            "detail": {"declared_with_sync_fn": name, "shape": shape, "round": rounds, "asyncio": repr(got)[:160], "scheduler": repr(want)[:160]},
+                            "case": {"mode": "pairs", "cases": [0, 1]},
+                        }
+                    )
+                res["nontrivial"].append(hash(("pairs", name, shape, rounds)) & 0xFFFFFFFFFFFF)
+    return res
+
+
 def run_unit(unit, progress):
     import asynq
     from asynq import is_asyncio_mode
@@ -446,6 +537,8 @@ def run_unit(unit, progress):
         return run_dedup(res, inc, progress)
     if unit.get("mode") == "refusals":
         return run_refusals(res, inc, progress)
+    if unit.get("mode") == "pairs":
+        return run_pairs(res, inc, progress)
     a, b = unit["cases"]
     for i in range(a, b):
         progress(i)
